@@ -574,6 +574,33 @@ for rule, props in [("TAB-INDEXPAIR", ["C09", "C11"]), ("ORD-FIRSTWINS", ["C09"]
 m("lazyindex-race-own-immut", "OWN-IMMUT", ["C18"], "break", ST, LAZY_OLD, LAZY_NEW, "nameIndex", False,
   "the same edit is a write to a shared table after construction", more=LAZY_MORE)
 
+m("overrun-space-not-reduced", "TAB-OVERRUN", ["C03", "C06"], "break", BS,
+  "\t\trem -= lenghtOfRemaining\n", "\t\t_ = lenghtOfRemaining\n", "decoded length", True,
+  "a child may overrun its container by the size of its length field (three independent seeded changes)")
+m("appendcarry-nothing-to-carry", "ORD-APPENDCARRY", ["C03", "C10"], "break", RL,
+  "\t\t\timps := r.SymbolTable().Imports()\n", "\t\t\tif len(r.SymbolTable().Symbols()) == 0 {\n\t\t\t\treturn nil, nil\n\t\t\t}\n\t\t\timps := r.SymbolTable().Imports()\n", "exit without imports", True,
+  "an append to a table without local symbols drops that table's imports (two independent seeded changes)")
+m("nilfield-cmd-symbol-text", "NIL-FIELD", ["C20"], "break", PR,
+  "\t\t\t\terr = p.out.WriteSymbol(*val)\n", "\t\t\t\terr = p.out.WriteSymbol(ion.NewSymbolTokenFromString(*val.Text))\n", "SymbolToken.Text", True,
+  "the symbol $0 crashes the command")
+m("symquote-annotation-fast-path", "OWN-SYMQUOTE", ["C01", "C05"], "break", TW,
+  "\tfor _, a := range as {\n\t\tif err := writeSymbol(a, w.out); err != nil {", "\tfor _, a := range as {\n\t\tif a.Text != nil && !symbolNeedsQuoting(*a.Text) {\n\t\t\tif err := writeRawString(*a.Text+\"::\", w.out); err != nil {\n\t\t\t\treturn err\n\t\t\t}\n\t\t\tcontinue\n\t\t}\n\t\tif err := writeSymbol(a, w.out); err != nil {", "writeAnnotations", True,
+  "an annotation with the text $7 is written unquoted")
+m("adjustmax-receiver-when-larger", "TAB-ADJUSTMAX", ["C09", "C11"], "break", ST,
+  "\tif maxID == s.maxID {\n\t\t// Nothing needs to change.", "\tif maxID >= s.maxID {\n\t\t// Nothing needs to change.", "returns the receiver", True,
+  "an import declaring a larger max_id than the catalog's table no longer reserves its range")
+m("adjustmax-refactor-flipped", "TAB-ADJUSTMAX", ["C09", "C11"], "refactor", ST,
+  "\tif maxID == s.maxID {\n\t\t// Nothing needs to change.", "\tif s.maxID == maxID {\n\t\t// Nothing needs to change.", "", True, "operands swapped")
+m("lencount-annotation-count", "TAB-LENCOUNT", ["C01", "C04"], "break", BW,
+  "\t\tbuf = appendVarUint(buf, idlen)\n", "\t\tbuf = appendVarUint(buf, uint64(len(ids)))\n", "appendVarUint(len", True,
+  "annot_length is the number of annotations instead of the byte length of their IDs")
+m("appendeach-writeto-skips-empty", "ORD-APPENDEACH", ["C11"], "break", ST,
+  "\t\tfor _, sym := range t.symbols {\n\t\t\tif err := w.WriteString(sym); err != nil {", "\t\tfor _, sym := range t.symbols {\n\t\t\tif sym == \"\" {\n\t\t\t\tcontinue\n\t\t\t}\n\t\t\tif err := w.WriteString(sym); err != nil {", "WriteTo", True,
+  "a gap in the table is not written, every later symbol is off by one in the stream")
+m("narrow-parseint-uint-magnitude", "NUM-NARROW", ["C13"], "break", TU,
+  "\t\t// Skip over the '0x' prefix.\n\t\tdigits = digits[2:]\n", "\t\t// Skip over the '0x' prefix.\n\t\tdigits = digits[2:]\n\t\tif mag, err := strconv.ParseUint(digits, radix, 64); err == nil && mag <= 1<<63 && !neg {\n\t\t\treturn int64(mag), nil\n\t\t}\n", "parseInt", False,
+  "0x8000000000000000 is read as -2^63")
+
 os.makedirs(os.path.dirname(os.path.abspath(__file__)), exist_ok=True)
 with open(os.path.join(os.path.dirname(os.path.abspath(__file__)), "core.json"), "w") as f:
     json.dump(M, f, indent=1)
